@@ -82,7 +82,7 @@ func (g *gen) oneBody(in reqIn) {
 	a := s.Arrived
 	var parts []seenPart
 	var perr error
-	partsOK := false
+	partsOK, orderOK := false, false
 	marshalSeen := ""
 	nt := true
 	switch {
@@ -106,7 +106,8 @@ func (g *gen) oneBody(in reqIn) {
 		for _, f := range in.Files {
 			ctl = ctl || hasCtl(f.Param) || hasCtl(f.Name) || !quoteModelled(f.Param) || !quoteModelled(f.Name)
 		}
-		partsOK = perr == nil && a != nil && s.Err == "" && !ctl
+		orderOK = perr == nil && a != nil && s.Err == ""
+		partsOK = orderOK && !ctl
 		if in.Chunked || in.Callback != "" {
 			if a != nil && s.Err == "" && !(len(a.TE) == 1 && a.TE[0] == "chunked") {
 				r.Fail(hk.Failure{Sig: "multipart:not-chunked", What: "forced chunked encoding was not used", Input: in, Got: a.TE})
@@ -146,7 +147,7 @@ func (g *gen) oneBody(in reqIn) {
 			r.Fail(hk.Failure{Sig: "raw:bytes", What: "raw body arrived altered", Input: in, Got: len(a.Body), Want: len(in.Raw)})
 		}
 	}
-	g.emitBody(in, s, parts, partsOK, marshalSeen, nt)
+	g.emitBody(in, s, parts, orderOK, partsOK, marshalSeen, nt)
 	g.emitUploads(in, s)
 }
 
